@@ -67,6 +67,9 @@ ASSUMPTIONS = [
 COQ_DEPS = ["Corr/KernelCorr.vo", "Corr/RegenTac.vo"]
 
 
+EXTRA_OBLIGATIONS_ASYNC = True    # compiled while the correspondence runs
+
+
 def extra_obligations(tier):
     """Second tie (DESIGN 12.7): uniform, sbvn_cdf, gauss_legendre_quad and the whole of bvn_cdf are re-translated from the
     current images_kernels.py (read per evaluation point) and proved equal, as real-valued functions, to Model/KernelM.v;
